@@ -26,6 +26,15 @@ Kernels
       of a suite file are parsed once and run by every case) is resolved twice with different
       symbol values (regex, replacement, expected text, integers, line matcher), and each
       resolved object is applied to two texts, interleaved
+  K9  compositions nested in compositions: a `|` sequence as a member of another one - inside
+      parentheses, behind a `text-transformer` symbol, or as one of the transformers attached to a
+      program one `-transformed-by` after the other - with a SYMBOLIC choice of every member from a
+      catalogue that contains `identity` (so `identity` stands at every position of the inner and
+      of the outer sequence, alone and together with non-identity members): output == the members
+      applied one after the other, left to right; and the derived attribute
+      `is_identity_transformer` (consulted by enclosing sequences and by the sites that attach a
+      transformer to a program to skip work) is true only if the documented meaning is the
+      identity, and is true if every member is `identity`
   K7  the assertion part shared by the instructions `contents`, `stdout`, `stderr`
       (StringMatcherAssertionPart): PASS exactly when the documented predicate holds, FAIL otherwise
 """
@@ -117,6 +126,13 @@ REAL_OF = {
              _P + 'matcher.impls.matches_regex.MatchesRegex'),
     'seq': (_P + 'string_transformer.impl.sequence.SequenceStringTransformer',
             _P + 'string_transformer.impl.sequence_sdv.StringTransformerSequenceSdv'),
+    'ref': (_P + 'string_transformer.sdvs.StringTransformerSdvReference',
+            'exactly_lib.type_val_deps.sym_ref.symbol_lookup.lookup_string_transformer'),
+    'attach': (_P + 'string_transformer.sequence_resolving.resolve',
+               _P + 'string_transformer.impl.sequence.SequenceStringTransformer'),
+    'attach-ddv': (_P + 'string_transformer.sequence_resolving_ddv.resolve',
+                   _P + 'string_transformer.impl.sequence.StringTransformerSequenceDdv',
+                   _P + 'string_transformer.impl.sequence.SequenceStringTransformer'),
 }
 
 REAL_K7 = (
@@ -250,6 +266,68 @@ def k7_assertion(s: str, e: str, k0: int, k1: int, u0: bool, u1: bool, u2: bool,
     holds = L.ref_matcher(c.get('ref_tree', tree), s, env)
     expected = PassOrFailOrHardErrorEnum.PASS if holds else PassOrFailOrHardErrorEnum.FAIL
     return ob.post(result.status is expected)
+
+
+# --------------------------------------------------------------------------- K9
+
+def _pre_k9(s, by_ref, m0, m1, m2, m3) -> bool:
+    c = ob.case()
+    if len(s) > c['maxlen'] or not L.in_alphabet(s, c['alphabet']):
+        return False
+    ms = (m0, m1, m2, m3)
+    for i in range(4):
+        if i < c['n']:
+            if ms[i] < 0 or ms[i] >= len(c['members']):
+                return False
+        elif ms[i] != 0:
+            return False
+    if by_ref and not c['leaf_symbols']:
+        return False
+    return True
+
+
+def k9_nested_composition(s: str, by_ref: bool, m0: int, m1: int, m2: int, m3: int) -> bool:
+    """
+    pre: _pre_k9(s, by_ref, m0, m1, m2, m3)
+    post: _
+    """
+    c = ob.case()
+    n = c['n']
+    # which transformer stands at each position: symbolic selectors, made concrete (the syntax must be concrete)
+    members = [ob.pick(c['members'], m) for m in (m0, m1, m2, m3)[:n]]
+    if ob.concrete_bool(by_ref):
+        # every member is written as a reference to a text-transformer symbol M<i> defined as the member
+        leaves = [('ref', 'M%d' % i, members[i]) for i in range(n)]
+    else:
+        leaves = members
+    tree = L.instantiate(c['shape'], leaves)
+    env = L.Env()
+    transformer = L.real_transformer(tree, env)
+    says_identity = transformer.is_identity_transformer
+    out = transformer.transform(L.text_model(s))
+    with out.contents().as_lines as lines:
+        real_lines = list(lines)
+    real_str = out.contents().as_str
+    # the documented meaning of `|`: the output of the transformer to the left is the input of the one to the
+    # right - however the members are grouped by parentheses / symbols / attachment
+    bug = c.get('oracle_bug')
+    expected = s
+    for member in (reversed(members) if bug == 'order' else members):
+        expected = L.ref_transformer(member, expected, env)
+    output_ok = L.same_str(real_str, expected) and L.same_lines(real_lines, L.ref_lines(expected))
+    # the derived attribute: who consults it leaves the text as it is
+    every_member_is_identity = True
+    some_member_is_identity = False
+    for member in members:
+        if L.ref_is_identity(member):
+            some_member_is_identity = True
+        else:
+            every_member_is_identity = False
+    if bug == 'attribute':
+        attribute_ok = bool(says_identity) == some_member_is_identity
+    else:
+        attribute_ok = (not says_identity or L.same_str(expected, s)) and (says_identity or not every_member_is_identity)
+    return ob.post(output_ok and attribute_ok)
 
 
 # --------------------------------------------------------------------------- K8
@@ -657,6 +735,82 @@ def obligations(tier: str) -> List[Ob]:
     t('K6', ('seq', ('replace', False, None, 'a', '\n'), ('filter', ('linenum', '=='))), 2 if quick else 3,
       name='seeded-oracle-error', expect=ob.REFUTE,
       ref_tree=('seq', ('filter', ('linenum', '==')), ('replace', False, None, 'a', '\n')))
+
+    # ---- K9: compositions nested in compositions, symbolic members
+    id_ = ('identity',)
+    a2b = ('replace', False, None, 'a', 'b')
+    b2a = ('replace', False, None, 'b', 'a')
+    tnl = ('strip-tnl',)
+    members3 = (id_, a2b, b2a)
+    members4 = (id_, a2b, b2a, tnl)
+    k9_shapes = [
+        # name, shape (numbers = positions of the members), members, in quick
+        ('flat3', ('seq', 0, 1, 2), members4, True),
+        ('left', ('seq', ('seq', 0, 1), 2), members4, True),
+        ('right', ('seq', 0, ('seq', 1, 2)), members4, True),
+        ('left-symbol', ('seq', ('ref', 'S', ('seq', 0, 1)), 2), members4, True),
+        ('right-symbol', ('seq', 0, ('ref', 'S', ('seq', 1, 2))), members4, True),
+        ('attached-1', ('attach', ('seq', 0, 1)), members4, True),
+        ('attached-2', ('attach', ('seq', 0, 1), 2), members4, True),
+        ('attached-2-symbol', ('attach', 0, ('ref', 'S', ('seq', 1, 2))), members4, False),
+        ('attached-ddv-2', ('attach-ddv', ('seq', 0, 1), 2), members4, True),
+        ('middle', ('seq', 0, ('seq', 1, 2), 3), members3, True),
+        ('left-left', ('seq', ('seq', ('seq', 0, 1), 2), 3), members3, True),
+        ('right-right', ('seq', 0, ('seq', 1, ('seq', 2, 3))), members3, False),
+        ('left-right', ('seq', ('seq', 0, 1), ('seq', 2, 3)), members3, True),
+        ('symbol-symbol', ('seq', ('ref', 'S', ('seq', 0, 1)), ('ref', 'R', ('seq', 2, 3))), members3, False),
+        ('symbol-in-symbol', ('seq', ('ref', 'S', ('seq', ('ref', 'R', ('seq', 0, 1)), 2)), 3), members3, True),
+        ('attached-3', ('attach', 0, ('seq', 1, 2), 3), members3, False),
+    ]
+
+    def positions(shape):
+        if isinstance(shape, int):
+            return 1
+        return sum(positions(x) for x in shape[1:] if isinstance(x, (int, tuple)))
+
+    def a9(name, shape, members, maxlen, leaf_symbols, timeout=300, expect=ob.CONFIRM, oracle_bug=None):
+        n = positions(shape)
+        case = dict(shape=shape, n=n, members=members, maxlen=maxlen, alphabet='ab\n', leaf_symbols=leaf_symbols)
+        if oracle_bug:
+            case['oracle_bug'] = oracle_bug
+        names = ['M%d' % i for i in range(n)]
+        syntax = L.render_transformer(L.instantiate(shape, [('ref', x, id_) for x in names]))
+        defs = L.symbol_definitions(L.instantiate(shape, [('ref', x, id_) for x in names]))
+        where = ['%s = %s' % (k, L.render_transformer(v)) for k, v in defs.items() if k not in names]
+        bound = ('`%s`%s: every choice of each of the %d members %s from {%s}, written in place%s; every text s, '
+                 '|s| <= %d over {a, b, new-line}' % (
+                     syntax, (' where ' + ', '.join(where)) if where else '', n, ', '.join(names),
+                     ', '.join('`%s`' % L.render_transformer(x) for x in members),
+                     ' or as a reference to a text-transformer symbol defined as it' if leaf_symbols else '', maxlen))
+        if oracle_bug == 'order':
+            bound = 'seeded oracle error (the reference applies the members right to left); ' + bound
+        if oracle_bug == 'attribute':
+            bound = ('seeded oracle error (the reference says a composition is an identity transformer as soon as '
+                     'SOME member is `identity`); ' + bound)
+        obs.append(Ob(
+            name='K9:' + name, fn='k9_nested_composition', case=case, kernel='K9',
+            bound=bound.replace('\n', '\\n'), timeout=timeout * tscale, expect=expect,
+            real=tuple(REAL_PARSE_T) + tuple(_reals(('seq',) + tuple(members) + (shape_kinds(shape),))),
+            stubs=(STUB_TMP,), outside=(OUT_SRC, OUT_UNI, OUT_RE),
+            entry='parse_string_transformer.parsers().full (and the definitions of the symbols) -> '
+                  'is_identity_transformer, transform(text).contents()'))
+
+    def shape_kinds(shape):
+        # a tree with the node kinds of the shape, for the list of real functions
+        if isinstance(shape, int):
+            return ('ref', 'M', id_)
+        if shape[0] == 'ref':
+            return ('ref', shape[1], shape_kinds(shape[2]))
+        return (shape[0],) + tuple(shape_kinds(x) for x in shape[1:])
+
+    for name, shape, members, in_quick in k9_shapes:
+        if quick and not in_quick:
+            continue
+        a9(name, shape, members, 2 if quick else 3, leaf_symbols=not quick or name in ('left', 'right'))
+    a9('seeded-oracle-error-order', ('seq', ('seq', 0, 1), 2), members3, 1, False, expect=ob.REFUTE,
+       oracle_bug='order')
+    a9('seeded-oracle-error-attribute', ('seq', ('seq', 0, 1), 2), members3, 1, False, expect=ob.REFUTE,
+       oracle_bug='attribute')
 
     # ---- a few primitives over the whole of printable ASCII + tab + new-line
     ascii_ = ''.join(chr(i) for i in range(32, 127)) + '\t\n'
